@@ -31,16 +31,21 @@ META = {
                   "element-wise normalisation of the field that extends the constraints and is harmonic at the free elements, "
                   "for EVERY solver answer satisfying L_II z = -L_IB z_B; the vertex angles of flag_singularities telescope to "
                   "the sum of the defects for any edge rotations, so the stored indices (+ the explicit sub-threshold residue) "
-                  "sum to (sum of defects)*2/pi = 4 chi under Gauss-Bonnet. PARTIAL: index quantum (e^{i order angle} = 1 under "
-                  "the named matching / closed-fan / holonomy hypotheses); gauge covariance is proved for the operator assembly "
-                  "(L' = G L G*, harmonic extensions correspond, edge reversal and renumbering invariance), the end-to-end "
-                  "numbering independence is a metamorphic TEST. REFUTED (known findings, witnesses replayed each run): unit "
+                  "sum to (sum of defects)*2/pi = 4 chi under Gauss-Bonnet; re-flagging on a mesh object that carried earlier "
+                  "fields stores exactly the indices of the field asked for (both element kinds; the `.clear()` of both "
+                  "flag_singularities is generated); gauge covariance of operator + partition + solve: whatever any solver "
+                  "answers in rotated bases, rotated back it is a harmonic extension of the original constraints, and "
+                  "normalisation commutes with the gauge. PARTIAL: index quantum (e^{i order angle} = 1 under "
+                  "the named hypotheses: root property of the picked branches, holonomy; the closed fan is discharged from the "
+                  "cyclic order of the faces); end-to-end numbering independence (it also involves the constraint "
+                  "initialisation) is a metamorphic TEST. REFUTED (known findings, witnesses replayed each run): unit "
                   "modulus without the guard (solution exactly 0 on symmetric inputs; cancelling vertex constraints); "
                   "'z = u^order' on faces with two feature edges for order != 4 (hard-coded **4, DESIGN #35); numbering "
                   "dependence of the constraint on faces with two feature edges and on vertices with conflicting feature "
                   "edges. The model is tied to the code by the translator and by kernel-evaluated correspondence batches "
                   "(bases, transports as (cos,sin), operator entries, constraint vector, partition, the system handed to "
-                  "spsolve and the residual of its answer, final field, indices) on generated surfaces.",
+                  "spsolve and the residual of its answer, final field, indices incl. the previous content of the attribute) on "
+                  "generated surfaces and on SEQUENCES of field computations + flaggings on one mesh object.",
     "level_note": "Trusted: Coq kernel + vm_compute; the translator vf/translate/c18.py; the correspondence harness (mesh "
                   "generators, driver canonicalisation of scipy matrices, wrapping of scipy.sparse.linalg.spsolve to record "
                   "the first system and answer, tolerance 1e-9 relative to 1+|re|+|im| on binary64, 1e-7 for the solver "
@@ -119,7 +124,8 @@ def faces_term(case, obs):
          coq_list([lit2(z) for z in obs["final"]]),
          coq_list([lit(x) for x in obs["defect"]]),
          coq_list([lit(x) for x in obs["rot"]]),
-         coq_list([lit(x) for x in obs["singuls"]])]
+         coq_list([lit(x) for x in obs["singuls"]]),
+         coq_list([lit(x) for x in obs.get("prev_singuls", [0.0] * len(obs["singuls"]))])]
     return "(mkfcase %s)" % " ".join(f)
 
 
@@ -141,10 +147,10 @@ def vertices_term(case, obs):
 
 
 # ---------------------------------------------------------------------- running the implementation
-def run_cases_impl(cases, timeout=600):
+def run_cases_impl(cases, timeout=600, per=8):
     if not cases:
         return []
-    nsh = max(1, min(core.NCPU, len(cases) // 8))
+    nsh = max(1, min(core.NCPU, len(cases) // per))
     payloads = [{"cases": cases[i::nsh]} for i in range(nsh)]
     res = core.run_impl_parallel("vf.impl.c18_driver", payloads, timeout=timeout)
     out = [None] * len(cases)
@@ -169,6 +175,7 @@ def sweep_cases():
     for nm, (V, F), planar in [("fan3", G.disk_fan(rng, 3), False), ("fan5", G.disk_fan(rng, 5), False),
                                ("eqtri2", G.eqtri_n(rng, 2), True), ("eqtri3", G.eqtri_n(rng, 3), True),
                                ("grid2x2", G.grid(rng, 2, 2, True), True), ("grid3x2", G.grid(rng, 3, 2, False, jitter=0.1), False),
+                               ("rect3x2", G.rectangle(rng, 3, 2), True), ("polygon8", G.polygon(rng, 8, 2, 0.1), True),
                                ("openbox", G.open_box(rng), False), ("tet", G.polyhedron(rng, "tet"), False),
                                ("octa", G.polyhedron(rng, "octa"), False), ("torus4x3", G.torus(rng, 4, 3), False)]:
         bases.append((nm, [list(map(float, p)) for p in V], [list(f) for f in F], planar))
@@ -182,6 +189,22 @@ def sweep_cases():
                                     "smooth_normals": order % 2 == 0 or feats, "V": V, "F": F, "planar": planar, "kind": nm,
                                     "seed": 7 * order + ns})
     return out
+
+
+def make_sequence(rng, tier):
+    """2-3 field computations on ONE mesh object (changing order / n_smooth / element / features), flagged after each"""
+    m = G.random_mesh(rng, tier)
+    steps = []
+    elem = rng.choice(["faces", "faces", "vertices"])
+    for k in range(rng.choice([2, 2, 3])):
+        c = G.random_config(rng)
+        if rng.random() < 0.75:
+            c["elem"] = elem           # mostly the same element kind: the attribute is re-used
+        if rng.random() < 0.7:
+            c["n_smooth"] = 0
+        c.update({"V": m["V"], "F": m["F"], "planar": m["planar"], "kind": m["kind"], "seed": rng.randrange(1 << 30)})
+        steps.append(c)
+    return steps
 
 
 def witness_cases():
@@ -221,7 +244,8 @@ def oracle_on(case, res):
 
 def run(ctx):
     quick = ctx.tier == "quick"
-    n_cases = 115 if quick else 900
+    n_cases = 95 if quick else 800
+    n_seq = 12 if quick else 150
     n_meta = 35 if quick else 400
     ctx.rule = ("triangulated surfaces with float coordinates: bordered grids (optionally with a hole, planar or with relief, "
                 "jittered), fans around an interior vertex, equilateral patches with two-border-edge corner faces, open box "
@@ -254,13 +278,29 @@ def run(ctx):
         cases.append(dict(c))
     n_fixed_cases = len(cases)
     cases += [make_case(ctx.rng, ctx.tier) for _ in range(n_cases)]
+    seqs = [make_sequence(ctx.rng, ctx.tier) for _ in range(n_seq)]
     if not quick:
         sw = sweep_cases()
         cases += sw
         ctx.count("sweep cases (orders 1-6 x elements x features x smoothing on 10 fixed surfaces)", len(sw))
     ctx.log("built: model_ok=%s props_ok=%s; running %d cases on the implementation" % (b["model_ok"], b["props_ok"], len(cases)))
     results = run_cases_impl(cases)
-    ctx.log("implementation runs done")
+    # sequences on one mesh object: every step becomes a case of its own (judged against the field it was asked for);
+    # steps after the first are also re-run on a fresh mesh (history independence of the flagging)
+    seq_res = run_cases_impl([{"seq": sq} for sq in seqs], per=2)
+    fresh_of = {}
+    later = []
+    for sq, sr in zip(seqs, seq_res):
+        for k, (c, r) in enumerate(zip(sq, sr["steps"])):
+            cases.append(dict(c, _seq={"step": k, "earlier": [{kk: vv for kk, vv in x.items() if kk not in ("V", "F")} for x in sq[:k]]}))
+            results.append(r)
+            if k >= 1 and r["ok"]:
+                later.append(len(cases) - 1)
+    fresh = run_cases_impl([{kk: vv for kk, vv in cases[i].items() if kk != "_seq"} for i in later])
+    for i, fr in zip(later, fresh):
+        fresh_of[i] = fr
+    ctx.count("sequence steps on a re-used mesh object", sum(len(sq) for sq in seqs))
+    ctx.log("implementation runs done (%d single cases, %d sequences)" % (len(cases) - sum(len(sq) for sq in seqs), len(seqs)))
 
     # ---- metamorphic twins (bordered surfaces, no smoothing): renumbering + face rotation + face shuffle
     meta = []
@@ -302,6 +342,13 @@ def run(ctx):
     for i, (c, r) in enumerate(zip(cases, results)):
         for key, msg in oracle_on(c, r):
             fails.append((i, key, msg))
+    # history independence of the flagging
+    for i, fr in fresh_of.items():
+        if fr["ok"] and results[i]["ok"]:
+            v = ORA.history_check(cases[i], results[i]["obs"], fr["obs"])
+            if v is not None:
+                fails.append((i, v[0], v[1] + " [earlier on this mesh: %s]"
+                              % [(x["elem"], x["order"], x["features"], x["n_smooth"]) for x in cases[i]["_seq"]["earlier"]]))
     # metamorphic
     n_meta_checked = 0
     for (i, c1, c2, vperm, fperm), r1, r2 in zip(meta, m1, m2):
@@ -323,12 +370,19 @@ def run(ctx):
     vidx = [i for i in okidx if cases[i]["elem"] == "vertices"]
     bad_f = bad_v = []
     if b["model_ok"]:
-        try:
-            fterms = [faces_term(cases[i], results[i]["obs"]) for i in fidx]
-            vterms = [vertices_term(cases[i], results[i]["obs"]) for i in vidx]
-        except ValueError as ex:
-            fterms = vterms = []
-            ctx.obligation("correspondence batches", "correspondence", False, "observation not encodable: %s" % ex)
+        def encode(idx, fn):
+            keep, terms = [], []
+            for i in idx:
+                try:
+                    terms.append(fn(cases[i], results[i]["obs"]))
+                    keep.append(i)
+                except ValueError as ex:
+                    # a non-finite observation cannot enter the kernel batch: the oracle must have condemned it
+                    if not any(fi == i for fi, _, _ in fails):
+                        ctx.obligation("case %d encodable or condemned by the oracle" % i, "correspondence", False, str(ex))
+            return keep, terms
+        fidx, fterms = encode(fidx, faces_term)
+        vidx, vterms = encode(vidx, vertices_term)
         bad_f = ctx.run_cases("faces", HEADER, fterms, "check_faces", case_type="fcase", shard=8 if quick else 25, timeout=900)
         bad_v = ctx.run_cases("vertices", HEADER, vterms, "check_vertices", case_type="vcase", shard=8 if quick else 25, timeout=900)
     else:
@@ -376,8 +430,20 @@ def replay(ctx, data):
     if case is None:
         print("replay file names no concrete input:", json.dumps(data)[:400])
         return 1
-    r = run_cases_impl([case])[0]
-    fs = oracle_on(case, r)
+    if case.get("_seq", {}).get("earlier"):
+        plain = {k: v for k, v in case.items() if k != "_seq"}
+        seq = [dict(x, V=case["V"], F=case["F"]) for x in case["_seq"]["earlier"]] + [plain]
+        r = run_cases_impl([{"seq": seq}])[0]["steps"][-1]
+        fs = oracle_on(case, r)
+        fr = run_cases_impl([plain])[0]
+        if r["ok"] and fr["ok"]:
+            v = ORA.history_check(case, r["obs"], fr["obs"])
+            if v is not None:
+                fs.append(v)
+        print("sequence on one mesh object: %d earlier field(s)" % len(case["_seq"]["earlier"]))
+    else:
+        r = run_cases_impl([case])[0]
+        fs = oracle_on(case, r)
     if "_meta" in case and r["ok"]:
         m = case["_meta"]
         c1 = dict(case, n_smooth=0)
